@@ -11,7 +11,7 @@ comes from the library itself (`svgmc ref`).
   cli_explorer.py replay <file>
 exit 0 held / 1 violation / 2 machinery error
 """
-import itertools, json, os, shutil, subprocess, sys, tempfile, time, hashlib
+import itertools, json, os, shutil, subprocess, sys, tempfile, time, hashlib, threading
 from concurrent.futures import ThreadPoolExecutor
 
 VERIF = "/verif"
@@ -113,10 +113,38 @@ def conversion_case(case, ref):
     d = tempfile.mkdtemp(prefix="c19-")
     try:
         stdin = None
+        feeder = None
         if case["in_mode"] == "file":
             p = os.path.join(d, "in put.bob")
             open(p, "wb").write(text.encode())
             argv = argv + [p]
+        elif case["in_mode"] == "file-symlink":
+            # the file argument is a symbolic link (relative target) to the diagram
+            os.mkdir(os.path.join(d, "real"))
+            open(os.path.join(d, "real", "in.bob"), "wb").write(text.encode())
+            p = os.path.join(d, "link.bob")
+            os.symlink(os.path.join("real", "in.bob"), p)
+            argv = argv + [p]
+        elif case["in_mode"] == "file-fifo":
+            # the file argument is a named pipe: it has no length until it has been read to the end
+            p = os.path.join(d, "in.fifo")
+            os.mkfifo(p)
+
+            def feed():
+                fd = os.open(p, os.O_WRONLY)  # returns once the tool (or the clean-up below) opens the other end
+                try:
+                    os.write(fd, text.encode())
+                except OSError:
+                    pass
+                os.close(fd)
+
+            feeder = threading.Thread(target=feed, daemon=True)
+            feeder.start()
+            argv = argv + [p]
+        elif case["in_mode"] == "file-devstdin":
+            # the file argument names the standard input, which is a pipe
+            stdin = text.encode()
+            argv = argv + ["/dev/stdin"]
         elif case["in_mode"] == "stdin":
             stdin = text.encode()
         else:
@@ -133,6 +161,14 @@ def conversion_case(case, ref):
                 open(out_path, "wb").write(b"STALE" * (len(want.encode()) // 5 + 50))
             argv = [("-o" if case["out_mode"] == "-o" else "--output"), out_path] + argv
         rc, so, se = run_cli(argv, stdin)
+        if feeder is not None:
+            # release the feeder if the tool never opened the pipe
+            try:
+                fd = os.open(p, os.O_RDONLY | os.O_NONBLOCK)
+                feeder.join(5)
+                os.close(fd)
+            except OSError:
+                pass
         errs = []
         if rc != 0:
             errs.append("exit status %r on a successful conversion (stderr %r)" % (rc, se[:200]))
@@ -261,6 +297,12 @@ def build_case(case, ref):
             if n.endswith("/"):
                 os.mkdir(os.path.join(src, n[:-1]))
                 open(os.path.join(src, n[:-1], "inner.bob"), "w").write("+-+")
+            elif case.get("links") and n.endswith(".bob"):
+                # the matching entry is a symbolic link (relative or absolute target) to the diagram kept elsewhere
+                os.makedirs(os.path.join(d, "store"), exist_ok=True)
+                real = os.path.join(d, "store", "real-" + n)
+                open(real, "wb").write(BUILD_FILES[n].encode())
+                os.symlink(real if case["links"] == "abs" else os.path.join("..", "store", "real-" + n), os.path.join(src, n))
             else:
                 open(os.path.join(src, n), "wb").write(BUILD_FILES[n].encode())
         mode = case["mode"]
@@ -360,6 +402,13 @@ def enumerate_cases(tier):
                             if inp == 5 and (len(s) % 3 != 0):
                                 continue
                             conv.append(dict(subset=s, which=which, out_mode=om, pre=pre, in_mode=im, input=inp))
+    # the file argument need not be a regular file: a symbolic link, a named pipe, /dev/stdin
+    for inp in range(len(INPUTS)):
+        for (om, pre) in (("stdout", None), ("-o", "absent")):
+            for im in ("file-symlink", "file-fifo", "file-devstdin"):
+                conv.append(dict(subset=subsets[0], which=0, out_mode=om, pre=pre, in_mode=im, input=inp))
+                if tier != "quick":
+                    conv.append(dict(subset=subsets[-1], which=1, out_mode=om, pre=pre, in_mode=im, input=inp))
     errs = []
     for im in in_modes:
         errs.append(dict(kind="missing-file", in_mode=im))
@@ -379,6 +428,11 @@ def enumerate_cases(tier):
             for mode in ("outdir", "inplace", "cwd-default"):
                 builds.append(dict(files=list(combo), mode=mode))
     builds.append(dict(files=[], mode="missing"))
+    # matching entries that are symbolic links
+    for combo in (["a.bob"], ["a.bob", "b.bob"], ["a.bob", "c.txt", "sub/", "d.v2.bob"], ["e f.bob", "empty.bob"]):
+        for links in ("rel", "abs"):
+            for mode in ("outdir", "inplace", "cwd-default"):
+                builds.append(dict(files=list(combo), mode=mode, links=links))
     # one failing file among several: every choice of the failing one (directory order is not under our control)
     for combo in (["a.bob", "b.bob", "empty.bob"], ["a.bob", "d.v2.bob", "e f.bob", "b.bob"]):
         for failing in combo:
